@@ -514,6 +514,9 @@ fn bind_object(
                         return new_loc_err(Error::ObjectCollectIsNotLast);
                     }
 
+                    #[cfg(feature = "verif")]
+                    crate::verif::ev_hash_order(remaining_keys.iter());
+
                     let new_rhs: BTreeMap<String, SourcedValue> =
                         remaining_keys
                             .iter()
